@@ -5,8 +5,8 @@ On success copies patch.diff, the demo and meta.json to /verif/seeded/<Cxx><v>/.
 import json, os, re, shutil, subprocess, sys
 
 pid, var = sys.argv[1], sys.argv[2]
-src = f"/tmp/mut/{pid}/{var}"
-wt = f"/tmp/wt/{pid}"
+src = os.environ.get("MUT_DIR", "/tmp/mut") + f"/{pid}/{var}"
+wt = os.environ.get("WT_DIR", "/tmp/wt") + f"/{pid}"
 env = dict(os.environ, GOFLAGS="-mod=mod", GOPROXY="off", GOSUMDB="off", GOTOOLCHAIN="local")
 
 
@@ -70,7 +70,7 @@ os.makedirs(dst, exist_ok=True)
 shutil.copy(f"{src}/patch.diff", dst)
 shutil.copy(f"{src}/{demo}", os.path.join(dst, "demo_test.go"))
 shutil.copy(f"{src}/notes.md", os.path.join(dst, "notes.md"))
-meta = {"property": pid, "variant": var, "demo_package_dir": pkgdir, "demo_tests": tests,
+meta = {"property": pid, "variant": var, "round": os.environ.get("SEED_ROUND", ""), "demo_package_dir": pkgdir, "demo_tests": tests,
         "needs_to_manifest": "see notes.md",
         "confirmed": {"demo_passes_without_change": True, "builds_with_change": True, "demo_fails_with_change": True,
                       "full_suite_passes_with_change": True,
